@@ -479,8 +479,10 @@ def writeFITSTable(filename, table):
         # Cause error columns to always be floats even when they are set to -1
         if name.startswith('err_'):
             fmt = 'E'
-        elif name == 'uuid':
-            fmt = '{0}A'.format(max(len(val) for val in table[name]))
+        elif table[name].dtype.kind in ('U', 'S'):
+            # wide enough for the longest string of any row (not only the
+            # first); at least one character so that empty strings can be held
+            fmt = '{0}A'.format(max(1, max(len(val) for val in table[name])))
         else:
             fmt = FITSTableType(table[name][0])
         cols.append(fits.Column(name=name, format=fmt, array=table[name]))
